@@ -198,3 +198,10 @@ Definition double_fill (e a : sig) : bool := double_fill_from e a 0.
    expected side must be satisfied).  A non-overloaded signature is a one-element list. *)
 Definition ov_kinds_ok (es as_ : list sig) : bool :=
   forallb (fun e => existsb (fun a => kinds_ok e a) as_) es.
+
+(* ---- a UNION on the accepted side (a value that may be any of several callables:
+   `g1 if c else g2`): CallableValue.can_assign defers to the member-wise rule of
+   TypedValue.can_assign — every member must be acceptable; a union on the expected side:
+   some member must accept. *)
+Definition union_accepted_ok (e : sig) (members : list sig) : bool := forallb (fun a => kinds_ok e a) members.
+Definition union_expected_ok (es : list sig) (a : sig) : bool := existsb (fun e => kinds_ok e a) es.
